@@ -29,8 +29,17 @@ struct JsonGen {
         o.push_back('"');
         size_t n = (size_t)r.below(maxlen + 1);
         for (size_t i = 0; i < n; i++) {
-            uint64_t k = r.below(25);
+            uint64_t k = r.below(26);
             uint32_t cp;
+            if (k == 25) {
+                // a surrogate escape that stands alone (grammatical per RFC 8259 section 7, whatever it decodes to): the
+                // parser must not take the units that follow it for the second half of a pair
+                static const uint32_t lone[] = {0xD800, 0xD83D, 0xD8FF, 0xD900, 0xDA00, 0xDBFF, 0xDC00, 0xDE00, 0xDFFF};
+                o.push_back('\\');
+                o.push_back('u');
+                hex4(o, lone[r.below(9)]);
+                continue;
+            }
             if (k < 12)
                 cp = (uint32_t)"abcdefghij k"[k];
             else if (k == 12)
